@@ -6,10 +6,13 @@ PROPS = {
                 "and lease_ids batches (duplicates, padded/unknown/blank ids), interleaved with clock moves on store and handler (1 ms .. beyond the 2-minute "
                 "idempotency window), operator cancel/requeue and re-dequeues; a 2xx is legal only for a current unexpired lease (and must take effect) or for "
                 "a repeat of an ack/nack that already succeeded (and must have no effect); everything else is 409 and changes nothing but the release of an "
-                "expired lease; batch accounting must equal the oracle's; non-trivial = a stale id presented while its message is leased under a newer "
-                "id, an idempotent repeat, or a batch mixing stale and valid ids",
+                "expired lease; batch accounting must equal the oracle's. One request in six has a store fault injected: the n-th lease mutation the handler asks "
+                "the store for fails (store offered with or without the batch forms); then the answer must not be a success, whatever was applied before the "
+                "failure must be a legal effect of a valid lease, and a later repeat is judged as usual (an 'idempotent' success for something that was never "
+                "applied is a violation); non-trivial = a stale id presented while its message is leased under a newer "
+                "id, an idempotent repeat, a batch mixing stale and valid ids, or a request with a store fault",
         "assumptions": [SAMPLED],
-        "guards": ["op-ok", "409", "idempotent-repeat", "stale-vs-newer-epoch"],
+        "guards": ["op-ok", "409", "idempotent-repeat", "stale-vs-newer-epoch", "store-fault"],
         "parts": [{"engine": "lease", "test": "TestProp_C04_Transport", "quick": 3000, "thorough": 300000}],
     },
     "C05": {
